@@ -216,6 +216,13 @@ def fsign_ok(a, b, r):
     return (r == 0.0 or (math.copysign(1.0, r) == math.copysign(1.0, b))) and abs(r) <= abs(b) and not math.isnan(r)
 
 
+def in_known_class(a, b):
+    """The F-strict known-finding class, evaluated natively: fmod(a,b) != 0, its sign differs from b's, and the sign
+    fix-up fmod(a,b) + b rounds to b."""
+    m = math.fmod(a, b)
+    return m != 0.0 and (math.copysign(1.0, m) != math.copysign(1.0, b)) and (m + b == b)
+
+
 def same_float(x, y):
     return (math.isnan(x) and math.isnan(y)) or f64_bits(x) == f64_bits(y)
 
@@ -477,8 +484,8 @@ def build_obligations(p_std, p_core, tier, log_dir):
                     continue
                 r = native_f(val)
                 okp = fsign_ok(a, b, r) and (not strict or abs(r) < abs(b))
-                if exclude_known and abs(r) == abs(b) and fsign_ok(a, b, r):
-                    okp = True
+                if exclude_known and in_known_class(a, b):
+                    okp = True   # the recorded known finding, not a new violation
                 if not okp:
                     bad = True
                 texts.append(f"{prof}: {a!r} % {b!r} -> {r!r}")
@@ -713,7 +720,10 @@ def run(tier, seed, jobs):
     obs = build_obligations(p_std, p_core, tier, log_dir)
     say(f"[C04] E2: {len(obs)} obligations, tier {tier}")
     t0 = time.time()
-    nvec, bad = validate_encoder(p_std, p_core, log_dir)
+    try:
+        nvec, bad = validate_encoder(p_std, p_core, log_dir)
+    except (mir.Unsupported, symex.PathExplosion) as e:
+        nvec, bad = 0, [f"encoder does not support the current code: {e}"]
     results = []
     results.append({"id": "V-encoder", "engine": "E2 mirsmt", "statement": "the encoding evaluates the repository's own test vectors to the "
                     "same results as the native functions (translator validation)", "bound": f"{nvec} concrete evaluations",
